@@ -132,6 +132,52 @@ theorem c08_python_matches_raw_partial (l : Lang) (hl : l.isPython = true) (r : 
   rw [c08_topic_eval_partial l r sc vals delim op h (by cases l <;> simp [Lang.isPython] at hl <;> simp)]
   simp [hl, specRaw]
 
+/-! ### From the public API inwards: arguments, parameters, forwarding -/
+
+/-- Forwarding is the identity: for every entry point of every language (Go `Publish<Op>`,
+`Subscribe<Op>`, `Subscribe<Op>Errorable`; Java `publish<Op>`, `subscribe<Op>`,
+`subscribe<Op>Throwable`; Dart, Python publish / subscribe) the values that reach the format
+arguments of the prefix expression are the arguments of the call, in order. Hypotheses: the
+variable names are distinct (otherwise the emitted Go does not even compile) and one argument
+per variable. -/
+theorem c08_forwarding_identity (l : Lang) (e : Entry) (sc : Scope) (args : List Str)
+    (hnd : sc.vars.Nodup) (hl : args.length = sc.vars.length) :
+    reachVals l e sc.vars args = args :=
+  reachVals_identity l e sc.vars args hnd hl
+
+/-- Conversely (the reason the harness calls every entry point with pairwise different values): a
+forwarding call that lists the declared names in any other way — permuted, one repeated, one
+replaced by another — hands the callee a different value list. -/
+theorem c08_forwarding_change_detected (vars vals fwd : List Str) (hnd : vars.Nodup) (hv : vals.Nodup)
+    (hl : vals.length = vars.length) (hf : fwd.length = vars.length) (hmem : ∀ n ∈ fwd, n ∈ vars)
+    (hne : fwd ≠ vars) : runChain [⟨vars, fwd⟩] vals ≠ vals := by
+  intro h
+  exact hne (forwarding_detected vars vals fwd hnd hv hl hf hmem (by simpa [runChain] using h))
+
+/-- Entry points of one language agree: publisher entry = every subscriber entry. -/
+theorem c08_entry_pub_eq_sub (l : Lang) (e : Entry) (sc : Scope) (args : List Str) (delim op : Str)
+    (hnd : sc.vars.Nodup) (hl : args.length = sc.vars.length) :
+    entryTopic l .pub sc args delim op = entryTopic l e sc args delim op := by
+  unfold entryTopic
+  rw [reachVals_identity l .pub sc.vars args hnd hl, reachVals_identity l e sc.vars args hnd hl]
+  have := c08_pub_tmpl_eq_sub_tmpl l sc delim
+  cases e <;> simp [Entry.role, this]
+
+/-- topic(entry point, args) = spec(args) for every entry point of every language. PARTIAL: the
+hypotheses of `c08_matches_spec_partial` (recorded findings) plus distinct variable names. -/
+theorem c08_entry_matches_spec_partial (l : Lang) (e : Entry) (sc : Scope) (args : List Str)
+    (delim op : Str) (h : PlainScope sc delim) (hl : LangOk l sc delim)
+    (hnd : sc.vars.Nodup) (hlen : args.length = sc.vars.length) :
+    entryTopic l e sc args delim op = some (spec sc args delim op) := by
+  unfold entryTopic
+  rw [reachVals_identity l e sc.vars args hnd hlen]
+  exact c08_matches_spec_partial l e.role sc args delim op h hl
+
+/-- the seeded change C08-m3 in model terms: Go `Subscribe<Op>` forwarding `tenant, region` -/
+theorem c08_forwarding_swap_counterexample :
+    runChain [⟨[['r'], ['t']], [['t'], ['r']]⟩] [['e','m','e','a'], ['a','c','m','e']]
+      = [['a','c','m','e'], ['e','m','e','a']] := by decide
+
 /-! ### Counterexamples: the recorded findings and the repaired defect, on their witnesses -/
 
 def evScope : Scope := ⟨['e','v','e','n','t','s'], []⟩
@@ -202,5 +248,7 @@ example : evalTopic .dart .sub big [['1'], ['2']] ['/'] ['o'] = some ['1','.','x
   decide
 example : c08_prefix_vars big.pfx (by decide) = c08_prefix_vars big.pfx (by decide) := rfl
 example : scanVars (prefixString big.pfx) = [['a','b'], ['c','d','_','e']] := by decide
+example : big.vars.Nodup ∧ entryTopic .go .sub big [['1'], ['2']] ['/'] ['o'] = some (spec big [['1'], ['2']] ['/'] ['o']) := by
+  refine ⟨by decide, by decide⟩
 
 end FV.C08
